@@ -395,15 +395,6 @@ def main(modname, tier, seed, replay_path=None, jobs=None):
             violations.append({"sig": sig, "case": case, "detail": detail})
             nviol += 1
 
-    # Vacuity guard: a module may state what a non-vacuous run must have observed
-    # (e.g. more than one distinct outcome over the schedules).  A vacuous run decides
-    # nothing: exit 2, never a pass.
-    san = getattr(mod, "sanity", None)
-    if san and not errors and not violations:
-        probs = san(summary, tier) or []
-        if probs:
-            sys.stderr.write("HARNESS ERROR in %s: vacuous exploration: %s\n" % (pid, "; ".join(probs)))
-            return 2
     # Known findings
     known = load_known()
     listed = {
@@ -416,6 +407,15 @@ def main(modname, tier, seed, replay_path=None, jobs=None):
             seen_known.setdefault(v["sig"], v)
         else:
             fresh.append(v)
+    # Vacuity guard: a module may state what a non-vacuous run must have observed
+    # (e.g. more than one distinct outcome over the schedules).  A vacuous run decides
+    # nothing: exit 2, never a pass.
+    san = getattr(mod, "sanity", None)
+    if san and not errors and not fresh:
+        probs = san(summary, tier) or []
+        if probs:
+            sys.stderr.write("HARNESS ERROR in %s: vacuous exploration: %s\n" % (pid, "; ".join(probs)))
+            return 2
     for sig, v in sorted(seen_known.items()):
         print("KNOWN-FINDING: property=%s %s -- %s" % (pid, sig, listed[sig]["text"]))
 
